@@ -1,1 +1,226 @@
-//! Harness contracts for C20.
+//! Harness contracts for C20 (first half: RWA identity-side registries).
+//!
+//! Thin wiring of the library's registry functions (DESIGN Appendix A): every entry point only
+//! forwards to the library function of the same name.  Authorization is not C20's subject, so
+//! the entry points perform no `require_auth` (the `operator` arguments of the library traits are
+//! accepted and ignored).  Two scriptable collaborators: `RegistryMock` (answers
+//! `has_claim_topic`, consulted by `claim_issuer::allow_key`) and `IssuerMock` (answers
+//! `is_claim_valid`, consulted by `identity_claims::add_claim`).
+
+/// `claim_topics_and_issuers` registry.
+pub mod cti {
+    use soroban_sdk::{contract, contractimpl, Address, Env, Map, Vec};
+    use stellar_tokens::rwa::claim_topics_and_issuers::{storage as s, ClaimTopicsAndIssuers};
+
+    #[contract]
+    pub struct Cti;
+
+    #[contractimpl]
+    impl ClaimTopicsAndIssuers for Cti {
+        fn add_claim_topic(e: &Env, claim_topic: u32, _operator: Address) {
+            s::add_claim_topic(e, claim_topic)
+        }
+        fn remove_claim_topic(e: &Env, claim_topic: u32, _operator: Address) {
+            s::remove_claim_topic(e, claim_topic)
+        }
+        fn get_claim_topics(e: &Env) -> Vec<u32> {
+            s::get_claim_topics(e)
+        }
+        fn add_trusted_issuer(e: &Env, trusted_issuer: Address, claim_topics: Vec<u32>, _operator: Address) {
+            s::add_trusted_issuer(e, &trusted_issuer, &claim_topics)
+        }
+        fn remove_trusted_issuer(e: &Env, trusted_issuer: Address, _operator: Address) {
+            s::remove_trusted_issuer(e, &trusted_issuer)
+        }
+        fn update_issuer_claim_topics(e: &Env, trusted_issuer: Address, claim_topics: Vec<u32>, _operator: Address) {
+            s::update_issuer_claim_topics(e, &trusted_issuer, &claim_topics)
+        }
+        fn get_trusted_issuers(e: &Env) -> Vec<Address> {
+            s::get_trusted_issuers(e)
+        }
+        fn get_claim_topic_issuers(e: &Env, claim_topic: u32) -> Vec<Address> {
+            s::get_claim_topic_issuers(e, claim_topic)
+        }
+        fn get_claim_topics_and_issuers(e: &Env) -> Map<u32, Vec<Address>> {
+            s::get_claim_topics_and_issuers(e)
+        }
+        fn is_trusted_issuer(e: &Env, issuer: Address) -> bool {
+            s::is_trusted_issuer(e, &issuer)
+        }
+        fn get_trusted_issuer_claim_topics(e: &Env, trusted_issuer: Address) -> Vec<u32> {
+            s::get_trusted_issuer_claim_topics(e, &trusted_issuer)
+        }
+        fn has_claim_topic(e: &Env, issuer: Address, claim_topic: u32) -> bool {
+            s::has_claim_topic(e, &issuer, claim_topic)
+        }
+    }
+}
+
+/// Scriptable stand-in for a `claim_topics_and_issuers` registry as seen by a claim issuer:
+/// `has_claim_topic` answers what the script says (default `true`).
+pub mod registry_mock {
+    use soroban_sdk::{contract, contractimpl, contracttype, Address, Env};
+
+    #[contracttype]
+    pub enum RegKey {
+        Answer(u32),
+    }
+
+    #[contract]
+    pub struct RegistryMock;
+
+    #[contractimpl]
+    impl RegistryMock {
+        /// answer for `claim_topic`: 0 = false, 1 = true, anything else = the call fails
+        pub fn set_answer(e: &Env, claim_topic: u32, answer: u32) {
+            e.storage().persistent().set(&RegKey::Answer(claim_topic), &answer);
+        }
+        pub fn has_claim_topic(e: &Env, _issuer: Address, claim_topic: u32) -> bool {
+            match e.storage().persistent().get::<_, u32>(&RegKey::Answer(claim_topic)).unwrap_or(1) {
+                0 => false,
+                1 => true,
+                _ => panic!("registry mock: scripted failure"),
+            }
+        }
+    }
+}
+
+/// Key-management part of a claim issuer.
+pub mod issuer_keys {
+    use soroban_sdk::{contract, contractimpl, Address, Bytes, Env, Vec};
+    use stellar_tokens::rwa::claim_issuer as ci;
+
+    #[contract]
+    pub struct IssuerKeys;
+
+    #[contractimpl]
+    impl IssuerKeys {
+        pub fn allow_key(e: &Env, public_key: Bytes, registry: Address, scheme: u32, claim_topic: u32) {
+            ci::allow_key(e, &public_key, &registry, scheme, claim_topic)
+        }
+        pub fn remove_key(e: &Env, public_key: Bytes, registry: Address, scheme: u32, claim_topic: u32) {
+            ci::remove_key(e, &public_key, &registry, scheme, claim_topic)
+        }
+        pub fn is_key_allowed_for_topic(e: &Env, public_key: Bytes, scheme: u32, claim_topic: u32) -> bool {
+            ci::is_key_allowed_for_topic(e, &public_key, scheme, claim_topic)
+        }
+        pub fn is_key_allowed_for_registry(e: &Env, public_key: Bytes, scheme: u32, registry: Address) -> bool {
+            ci::is_key_allowed_for_registry(e, &public_key, scheme, &registry)
+        }
+        pub fn get_keys_for_topic(e: &Env, claim_topic: u32) -> Vec<ci::SigningKey> {
+            ci::get_keys_for_topic(e, claim_topic)
+        }
+        pub fn get_registries(e: &Env, public_key: Bytes, scheme: u32) -> Vec<Address> {
+            ci::get_registries(e, &ci::SigningKey { public_key, scheme })
+        }
+    }
+}
+
+/// Identity registry storage.
+pub mod irs {
+    use soroban_sdk::{contract, contractimpl, Address, Env, Vec};
+    use stellar_tokens::rwa::identity_registry_storage as s;
+
+    #[contract]
+    pub struct Irs;
+
+    #[contractimpl]
+    impl Irs {
+        pub fn add_identity(e: &Env, account: Address, identity: Address, identity_type: s::IdentityType, country_data_list: Vec<s::CountryData>) {
+            s::add_identity(e, &account, &identity, identity_type, &country_data_list)
+        }
+        pub fn remove_identity(e: &Env, account: Address) {
+            s::remove_identity(e, &account)
+        }
+        pub fn modify_identity(e: &Env, account: Address, identity: Address) {
+            s::modify_identity(e, &account, &identity)
+        }
+        pub fn recover_identity(e: &Env, old_account: Address, new_account: Address) {
+            s::recover_identity(e, &old_account, &new_account)
+        }
+        pub fn add_country_data_entries(e: &Env, account: Address, country_data_list: Vec<s::CountryData>) {
+            s::add_country_data_entries(e, &account, &country_data_list)
+        }
+        pub fn modify_country_data(e: &Env, account: Address, index: u32, country_data: s::CountryData) {
+            s::modify_country_data(e, &account, index, &country_data)
+        }
+        pub fn delete_country_data(e: &Env, account: Address, index: u32) {
+            s::delete_country_data(e, &account, index)
+        }
+        pub fn stored_identity(e: &Env, account: Address) -> Address {
+            s::stored_identity(e, &account)
+        }
+        pub fn get_identity_profile(e: &Env, account: Address) -> s::IdentityProfile {
+            s::get_identity_profile(e, &account)
+        }
+        pub fn get_recovered_to(e: &Env, old_account: Address) -> Option<Address> {
+            s::get_recovered_to(e, &old_account)
+        }
+        pub fn get_country_data_entries(e: &Env, account: Address) -> Vec<s::CountryData> {
+            s::get_country_data_entries(e, &account)
+        }
+        pub fn get_country_data(e: &Env, account: Address, index: u32) -> s::CountryData {
+            s::get_country_data(e, &account, index)
+        }
+    }
+}
+
+/// Scriptable claim issuer: `is_claim_valid` panics (as the trait documents for an invalid
+/// claim) for the topics the script marked invalid.
+pub mod issuer_mock {
+    use soroban_sdk::{contract, contractimpl, contracttype, panic_with_error, Address, Bytes, Env};
+    use stellar_tokens::rwa::{claim_issuer::ClaimIssuer, identity_claims::ClaimsError};
+
+    #[contracttype]
+    pub enum IssuerKey {
+        Invalid(u32),
+    }
+
+    #[contract]
+    pub struct IssuerMock;
+
+    #[contractimpl]
+    impl IssuerMock {
+        pub fn set_valid(e: &Env, claim_topic: u32, valid: bool) {
+            e.storage().persistent().set(&IssuerKey::Invalid(claim_topic), &!valid);
+        }
+    }
+
+    #[contractimpl]
+    impl ClaimIssuer for IssuerMock {
+        fn is_claim_valid(e: &Env, _identity: Address, claim_topic: u32, _scheme: u32, _sig_data: Bytes, _claim_data: Bytes) {
+            if e.storage().persistent().get::<_, bool>(&IssuerKey::Invalid(claim_topic)).unwrap_or(false) {
+                panic_with_error!(e, ClaimsError::ClaimNotValid)
+            }
+        }
+    }
+}
+
+/// On-chain identity holding claims.
+pub mod ident {
+    use soroban_sdk::{contract, contractimpl, Address, Bytes, BytesN, Env, String, Vec};
+    use stellar_tokens::rwa::identity_claims::{self as ic, Claim, IdentityClaims};
+
+    #[contract]
+    pub struct Ident;
+
+    #[contractimpl]
+    impl IdentityClaims for Ident {
+        fn add_claim(e: &Env, topic: u32, scheme: u32, issuer: Address, signature: Bytes, data: Bytes, uri: String) -> BytesN<32> {
+            ic::add_claim(e, topic, scheme, &issuer, &signature, &data, &uri)
+        }
+        fn get_claim(e: &Env, claim_id: BytesN<32>) -> Claim {
+            ic::get_claim(e, &claim_id)
+        }
+        fn get_claim_ids_by_topic(e: &Env, topic: u32) -> Vec<BytesN<32>> {
+            ic::get_claim_ids_by_topic(e, topic)
+        }
+    }
+
+    #[contractimpl]
+    impl Ident {
+        pub fn remove_claim(e: &Env, claim_id: BytesN<32>) {
+            ic::remove_claim(e, &claim_id)
+        }
+    }
+}
